@@ -119,7 +119,9 @@ class C08(core.Check):
         "radius 0.03..30 in a random plane, included angle (0.02, pi-0.05), flatness 1; origin_adj: flatness != 1 or a "
         "non-equidistant origin; arc3: three points on a circle with the third point strictly inside the arc, swept angle "
         "(0.05, 2*pi-0.05) away from pi; arc3_beyond: third point between the end and the antipode of the start (known "
-        "finding); poly/curve/simple: spline, polyLine, curve, line and project edges over random point sets; reject: "
+        "finding); curve_tf: OnCurve edges over linear/spline/discrete curves placed by translate/rotate/scale/mirror as method "
+        "calls or as a transformation list; mesh: origin/angle arcs on the 12 edge positions of one or two stacked lofts in "
+        "general position, observed in the assembled mesh's edges section; poly/curve/simple: spline, polyLine, curve, line and project edges over random point sets; reject: "
         "angles outside (0, 2*pi), collinear arc points, a one-point polyline. Non-trivial = every case; distinct = "
         "different input."
     )
@@ -229,6 +231,83 @@ class C08(core.Check):
         p, q = [rng.uniform(-5, 5) for _ in range(3)], [rng.uniform(-5, 5) for _ in range(3)]
         return {"kind": "curve", "curve": "line", "points": [p, q], "t": sorted([rng.uniform(0, 0.45), rng.uniform(0.55, 1)])}
 
+    def _tf_ops(self, rng: random.Random) -> list:
+        """a short sequence of placements with explicit origins"""
+        ops = []
+        for _ in range(rng.randint(1, 3)):
+            name = rng.choice(["translate", "rotate", "scale", "scale", "mirror"])
+            if name == "translate":
+                ops.append(["translate", [rng.uniform(-10, 10) for _ in range(3)]])
+            elif name == "rotate":
+                ops.append(["rotate", rng.uniform(-3, 3), _unit([rng.gauss(0, 1) + 0.01 for _ in range(3)]), [rng.uniform(-2, 2) for _ in range(3)]])
+            elif name == "scale":
+                ops.append(["scale", rng.choice([0.2, 0.5, 2.5, 4.0, rng.uniform(1.5, 6)]), [rng.uniform(-2, 2) for _ in range(3)]])
+            else:
+                ops.append(["mirror", _unit([rng.gauss(0, 1) + 0.01 for _ in range(3)]), [rng.uniform(-2, 2) for _ in range(3)]])
+        return ops
+
+    def _curve_tf_case(self, rng: random.Random) -> dict:
+        """an OnCurve edge over a whole point curve that was put in place by method calls or by a transformation list"""
+        c = self._poly_case(rng)
+        d = _unit([rng.gauss(0, 1) for _ in range(3)])
+        pts = [_add(p, _mul(0.4 * i, d)) for i, p in enumerate(c["points"])]
+        return {
+            "kind": "curve_tf",
+            "curve": rng.choice(["linear", "spline", "discrete"]),
+            "points": pts,
+            "ops": self._tf_ops(rng),
+            "mode": rng.choice(["method", "list", "list"]),
+        }
+
+    def _mesh_case(self, rng: random.Random, n_lofts: int) -> dict:
+        """one or two stacked lofts in general position; origin / angle arcs on (nearly) all 12 edge positions"""
+        e1, e2, n = _frame(rng)
+        size = 10 ** rng.uniform(-0.5, 0.8)
+        off = [rng.uniform(-5, 5) for _ in range(3)]
+        base = [(0, 0), (1, 0), (1, 1), (0, 1)]
+        levels = []
+        for k in range(n_lofts + 1):
+            quad = []
+            for x, y in base:
+                x, y, z = x + rng.uniform(-0.15, 0.15), y + rng.uniform(-0.15, 0.15), 1.1 * k + rng.uniform(-0.15, 0.15)
+                quad.append(_add(off, _add(_add(_mul(size * x, e1), _mul(size * y, e2)), _mul(size * z, n))))
+            levels.append(quad)
+
+        def spec(p, q):
+            r = rng.random()
+            if r < 0.1:
+                return None
+            dp = _sub(q, p)
+            ch = _norm(dp)
+            while True:
+                t = [rng.gauss(0, 1) for _ in range(3)]
+                perp = _cross(dp, t)
+                if _norm(perp) > 0.3 * ch:
+                    perp = _unit(perp)
+                    break
+            if r < 0.65:
+                theta = rng.uniform(0.3, 2.8) if rng.random() < 0.8 else rng.uniform(3.4, 4.5)
+                theta *= rng.choice([1, -1])
+                return {"type": "angle", "theta": theta, "axis": _mul(rng.choice([1.0, 0.5, 3.0]), perp)}
+            phi = rng.uniform(0.3, 2.8)
+            h = ch / 2 / math.tan(phi / 2)
+            return {"type": "origin", "origin": _add(_mul(0.5, _add(p, q)), _mul(h, perp))}
+
+        lofts = []
+        for k in range(n_lofts):
+            b, t = levels[k], levels[k + 1]
+            lofts.append(
+                {
+                    "bottom": b,
+                    "top": t,
+                    # the bottom face of an upper loft is the top face of the one below: defined there
+                    "bottom_edges": [spec(b[i], b[(i + 1) % 4]) if k == 0 else None for i in range(4)],
+                    "top_edges": [spec(t[i], t[(i + 1) % 4]) for i in range(4)],
+                    "side_edges": [spec(b[i], t[i]) for i in range(4)],
+                }
+            )
+        return {"kind": "mesh", "lofts": lofts}
+
     def gen_cases(self, rng: random.Random, tier: str) -> List[dict]:
         n = 160 if tier == "quick" else 1600
         cases: List[dict] = []
@@ -245,6 +324,10 @@ class C08(core.Check):
             cases.append({"kind": "simple", "edge": rng.choice(["line", "project"]), "points": [p, q]})
         for _ in range(max(3, n // 20)):
             cases.append(self._arc3_case(rng, True))
+        for _ in range(n // 4):
+            cases.append(self._curve_tf_case(rng))
+        for i in range(max(10, n // 10)):
+            cases.append(self._mesh_case(rng, 1 + i % 2))
         # malformed / boundary stream
         for th in [0.0, TWO_PI, -TWO_PI, 7.0, -6.5, TWO_PI + 1e-9]:
             c = self._theta_case(rng)
@@ -313,6 +396,68 @@ class C08(core.Check):
                 data = edges.Line() if case["edge"] == "line" else edges.Project("geo")
                 pts = case["points"]
                 return observe(mk(pts[0], pts[1], data))
+            if kind == "curve_tf":
+                import classy_blocks as cb
+
+                cls = {"linear": cb.LinearInterpolatedCurve, "spline": cb.SplineInterpolatedCurve, "discrete": cb.DiscreteCurve}
+                curve = cls[case["curve"]](case["points"])
+                if case["mode"] == "method":
+                    for op in case["ops"]:
+                        if op[0] == "translate":
+                            curve.translate(op[1])
+                        elif op[0] == "rotate":
+                            curve.rotate(op[1], op[2], op[3])
+                        elif op[0] == "scale":
+                            curve.scale(op[1], op[2])
+                        else:
+                            curve.mirror(op[1], op[2])
+                else:
+                    tfs = []
+                    for op in case["ops"]:
+                        if op[0] == "translate":
+                            tfs.append(cb.Translation(op[1]))
+                        elif op[0] == "rotate":
+                            tfs.append(cb.Rotation(op[2], op[1], op[3]))
+                        elif op[0] == "scale":
+                            tfs.append(cb.Scaling(op[1], op[2]))
+                        else:
+                            tfs.append(cb.Mirror(op[1], op[2]))
+                    curve.transform(tfs)
+                moved = [[float(x) for x in p] for p in curve.array.points]
+                edge = mk(moved[0], moved[-1], edges.OnCurve(curve, n_points=8))
+                out = observe(edge)
+                out["moved"] = moved
+                out["pts"] = [[float(x) for x in p] for p in edge.point_array]
+                return out
+            if kind == "mesh":
+                import classy_blocks as cb
+
+                def data(sp):
+                    if sp is None:
+                        return None
+                    if sp["type"] == "angle":
+                        return edges.Angle(sp["theta"], sp["axis"])
+                    return edges.Origin(sp["origin"])
+
+                mesh = cb.Mesh()
+                for lf in case["lofts"]:
+                    loft = cb.Loft(
+                        cb.Face(lf["bottom"], [data(x) for x in lf["bottom_edges"]]),
+                        cb.Face(lf["top"], [data(x) for x in lf["top_edges"]]),
+                    )
+                    for i, sp in enumerate(lf["side_edges"]):
+                        if sp is not None:
+                            loft.add_side_edge(i, data(sp))
+                    mesh.add(loft)
+                mesh.assemble()
+                return {
+                    "vertices": [[float(x) for x in v.position] for v in mesh.vertex_list.vertices],
+                    "indexes": [int(v.index) for v in mesh.vertex_list.vertices],
+                    "text": mesh.edge_list.description,
+                    "edges": [
+                        [int(e.vertex_1.index), int(e.vertex_2.index), e.kind, float(e.length)] for e in mesh.edge_list.edges
+                    ],
+                }
             if kind == "curve":
                 import classy_blocks as cb
 
@@ -389,7 +534,56 @@ class C08(core.Check):
             return ["c08.poly " + ";".join(_vec(p) for p in pts) + " " + eps]
         if kind == "simple":
             return ["c08.poly " + ";".join(_vec(p) for p in case["points"]) + " " + eps]
+        if kind == "curve_tf" and case["curve"] != "spline" and "moved" in impl:
+            return ["c08.poly " + ";".join(_vec(p) for p in impl["moved"]) + " " + eps]
+        if kind == "mesh":
+            reqs = []
+            for p, q, sp in self._mesh_specs(case):
+                if sp["type"] == "angle":
+                    c, s = _half_angle(sp["theta"])
+                    reqs.append(
+                        f"c08.theta {core.rat(sp['theta'])} {_vec(p)} {_vec(q)} {_vec(sp['axis'])} {core.rat(c)} {core.rat(s)} {eps}"
+                    )
+                else:
+                    reqs.append(f"c08.origin {_vec(p)} {_vec(q)} {_vec(sp['origin'])} 1/1 {eps}")
+            return reqs
         return []
+
+    @staticmethod
+    def _mesh_specs(case: dict):
+        """(start point, end point, specification) of every curved edge, in the direction the user gave it"""
+        out = []
+        for lf in case["lofts"]:
+            b, t = lf["bottom"], lf["top"]
+            for i in range(4):
+                for pts, sp in ((b, lf["bottom_edges"][i]), (t, lf["top_edges"][i])):
+                    if sp is not None:
+                        out.append((pts[i], pts[(i + 1) % 4], sp))
+                if lf["side_edges"][i] is not None:
+                    out.append((b[i], t[i], lf["side_edges"][i]))
+        return out
+
+    @staticmethod
+    def _written_arcs(impl: dict):
+        """the `arc a b (x y z)` entries of the edges section -> [(a, b, point)]"""
+        import re
+
+        arcs = []
+        for m in re.finditer(r"^\s*arc\s+(\d+)\s+(\d+)\s+\(([^)]*)\)", impl["text"], flags=re.M):
+            arcs.append((int(m.group(1)), int(m.group(2)), [float(x) for x in m.group(3).split()]))
+        return arcs
+
+    @staticmethod
+    def _find_arc(impl: dict, arcs, p, q):
+        """the written arc between the vertices at positions p and q (either order)"""
+        pos = dict(zip(impl["indexes"], impl["vertices"]))
+        found = []
+        for a, b, m in arcs:
+            if a in pos and b in pos:
+                for x, y in ((a, b), (b, a)):
+                    if max(abs(u - v) for u, v in zip(pos[x], p)) < 1e-9 and max(abs(u - v) for u, v in zip(pos[y], q)) < 1e-9:
+                        found.append((a, b, m))
+        return found
 
     def compare(self, case: dict, impl: Any, model: List[str]) -> Optional[str]:
         kind = case["kind"]
@@ -426,6 +620,27 @@ class C08(core.Check):
         if kind == "poly_bad":
             if ("reject" in impl) != (ans[0] == "reject"):
                 return f"polyline_length guard: implementation {impl}, model {ans[0]}"
+            return None
+        if kind == "mesh":
+            arcs = self._written_arcs(impl)
+            for (p, q, sp), m in zip(self._mesh_specs(case), model):
+                a = m.split()
+                if a[0] != "ok":
+                    return f"model answers {m[:80]} for {sp}"
+                mm = _parse_vec(a[-1])
+                found = self._find_arc(impl, arcs, p, q)
+                if len(found) != 1:
+                    return f"{len(found)} arc entries written between {p} and {q}"
+                sc = _scale(p, q, mm)
+                if not max(abs(x - y) for x, y in zip(mm, found[0][2])) <= 2e-8 + TOL_POINT * sc * 10:
+                    return f"written arc {found[0][0]} {found[0][1]}: point {found[0][2]}, model {mm} ({sp['type']})"
+            return None
+        if kind == "curve_tf":
+            if ans[0] != "ok":
+                return f"model answers {model[0]}"
+            ml = float(core.parse_rat(ans[1]))
+            if not abs(ml - impl["length"]) <= 1e-6 * max(1.0, ml):
+                return f"curve edge over the transformed curve: implementation {impl['length']}, model polyline {ml}"
             return None
         if kind in ("poly", "curve", "simple"):
             if ans[0] != "ok":
@@ -588,6 +803,85 @@ class C08(core.Check):
             if not abs(impl["length"] - exp) <= 1e-9 * max(1.0, exp):
                 bad(f"Edge.length:{name}", f"length {impl['length']}, polyline {exp}", impl["length"], exp)
             chord_bound(pts[0], pts[-1], name)
+            return out
+        if kind == "curve_tf":
+            if "reject" in impl:
+                bad("OnCurveEdge:valid-input-rejected", str(impl))
+                return out
+            moved = impl["moved"]
+            how = "method" if case["mode"] == "method" else "transform-list"
+            chord_bound(moved[0], moved[-1], f"curve-{case['curve']}:placed-by-{how}", rel=1e-6)
+            exp = sum(_norm(_sub(a, b)) for a, b in zip(moved[:-1], moved[1:]))
+            if not abs(impl["length"] - exp) <= 1e-6 * max(1.0, exp):
+                bad(
+                    f"OnCurveEdge.length:curve-{case['curve']}:placed-by-{how}",
+                    f"length {impl['length']}, polyline through the placed curve points {exp}",
+                    impl["length"],
+                    exp,
+                )
+            if case["curve"] != "spline":
+                # every written point lies on the placed polyline
+                sc = _scale(*moved)
+
+                def seg_dist(x, a, b):
+                    ab, ax = _sub(b, a), _sub(x, a)
+                    t = max(0.0, min(1.0, _dot(ax, ab) / max(_dot(ab, ab), 1e-300)))
+                    return _norm(_sub(x, _add(a, _mul(t, ab))))
+
+                for x in impl["pts"]:
+                    dmin = min(seg_dist(x, a, b) for a, b in zip(moved[:-1], moved[1:]))
+                    if not dmin <= 1e-6 * sc:
+                        bad(
+                            f"OnCurveEdge.point_array:curve-{case['curve']}:placed-by-{how}",
+                            f"written point {x} is {dmin:.3g} away from the placed curve",
+                        )
+                        break
+            return out
+        if kind == "mesh":
+            arcs = self._written_arcs(impl)
+            pos = dict(zip(impl["indexes"], impl["vertices"]))
+            n_spec = 0
+            for p, q, sp in self._mesh_specs(case):
+                n_spec += 1
+                dp = _sub(q, p)
+                pm = _mul(0.5, _add(p, q))
+                if sp["type"] == "angle":
+                    a = _unit(sp["axis"])
+                    th = sp["theta"]
+                    exp_m = _add(pm, _mul(math.tan(th / 4) / 2, _cross(dp, a)))
+                    R = _norm(dp) / (2 * abs(math.sin(th / 2)))
+                    centre = _sub(pm, _mul(1 / math.tan(th / 2) / 2, _cross(dp, a)))
+                    ang = abs(th)
+                else:
+                    centre = sp["origin"]
+                    r1, r3 = _sub(p, centre), _sub(q, centre)
+                    R = 0.5 * (_norm(r1) + _norm(r3))
+                    exp_m = _add(centre, _mul(R, _unit(_sub(pm, centre))))
+                    ang = math.atan2(_norm(_cross(r1, r3)), _dot(r1, r3))
+                found = self._find_arc(impl, arcs, p, q)
+                site = f"Mesh.edges:{sp['type']}-arc"
+                if len(found) != 1:
+                    bad(site + ":entry-count", f"{len(found)} arc entries written between {p} and {q}", impl["text"])
+                    continue
+                a_, b_, m = found[0]
+                sc = _scale(p, q, exp_m)
+                tol = 2e-8 + TOL_POINT * sc * 10
+                problems = []
+                if not abs(_norm(_sub(m, centre)) - R) <= tol:
+                    problems.append(f"{_norm(_sub(m, centre)):.6g} from the centre, radius {R:.6g}")
+                if not abs(_norm(_sub(m, p)) - _norm(_sub(m, q))) <= tol:
+                    problems.append("not half-way between the end points")
+                if not max(abs(x - y) for x, y in zip(m, exp_m)) <= tol:
+                    problems.append("not the middle of the specified arc (wrong side?)")
+                if problems:
+                    bad(site + ":written-point", f"arc {a_} {b_} ({m}): " + "; ".join(problems), m, exp_m)
+                lens = [e[3] for e in impl["edges"] if {e[0], e[1]} == {a_, b_}]
+                if len(lens) != 1 or not abs(lens[0] - R * ang) <= TOL_LEN * max(1.0, R * ang):
+                    bad(site + ":length", f"edge {a_} {b_}: length {lens}, radius*angle {R * ang}", lens, R * ang)
+                elif not lens[0] >= _norm(dp) * (1 - 1e-9):
+                    bad(f"Edge.length:shorter-than-chord:mesh-{sp['type']}", f"length {lens[0]} < chord {_norm(dp)}")
+            if len(arcs) != n_spec:
+                bad("Mesh.edges:arc-entries", f"{len(arcs)} arc entries written for {n_spec} specified arcs", impl["text"])
             return out
         if kind == "curve":
             if "reject" in impl:
